@@ -51,7 +51,8 @@ impl ShaGenerator {
 
         let hasher = match current_state {
             Some(jh) => jh.await??,
-            None => return Ok(MerkleHash::default()),
+            // No data was ever added: this is the hash of the empty input, not an all-zero placeholder.
+            None => Sha256::default(),
         };
 
         let sha256 = hasher.finalize();
